@@ -23,6 +23,7 @@ PAT = {
     "stored the vertex unwrapped": "wraps the vertex into the fundamental domain",
     "toroidal metadata dropped by the heuristic rebuild": "heuristic rebuild keeps the global topology",
     "wrapping returned the period itself": "never returns the period itself",
+    "validation_report() came back empty": "validation_report includes the completion-time",
 }
 def h(pat):
     for l in log:
